@@ -110,7 +110,7 @@ def run(ctx):
         if o["nerr"] != 0:
             ctx.count(("rejected", src), False, strat.split(":")[0] + "-rejected")
             continue
-        cls = prnlib.layout_class(o["tree"], strat)
+        cls = prnlib.layout_class(o["tree"], strat, o.get("decl_info"))
         compiles = "compile_err" not in o
         for preset, r in sorted(o["fmt"].items()):
             ctx.count((preset, src), True, strat.split(":")[0] + ("" if compiles else "-nocompile"))
